@@ -361,21 +361,34 @@ def check_property(prop, tier, repo, only=None, seed=0):
             nat_by_crate, ninfos, und2 = N.prepare_native_units(scr, n_units, repo, CONTRACTS)
             all_obls += und2
             scratch_diff = list(scr.diff)
-            for crate, uns in by_crate.items():
-                obls, wall, cmd = run_kani_crate(scr, crate, uns, kinfos, tier, prop, int(os.environ.get('VERIF_JOBS', '16')), LOG_DIR)
-                all_obls += obls
-                cmds.append(cmd)
-                for un in uns:
-                    kinfos[un]['wall_s'] = wall
-                    log('[%s]   K %-28s %s' % (prop, un, summarize([o for o in obls if o.unit == un])))
+            # the K and the N engine use different target directories of the same scratch copy, so the two
+            # run side by side (crates of one engine stay sequential: they share a cargo lock)
+            def _k_all():
+                out = []
+                for crate, uns in by_crate.items():
+                    obls, wall, cmd = run_kani_crate(scr, crate, uns, kinfos, tier, prop, int(os.environ.get('VERIF_JOBS', '16')), LOG_DIR)
+                    out.append((obls, cmd))
+                    for un in uns:
+                        kinfos[un]['wall_s'] = wall
+                        log('[%s]   K %-28s %s' % (prop, un, summarize([o for o in obls if o.unit == un])))
+                return out
+
+            def _n_all():
+                out = []
+                for crate, uns in nat_by_crate.items():
+                    obls, wall, cmd = N.run_native_crate(scr, crate, uns, ninfos, tier, prop, LOG_DIR, seed)
+                    out.append((obls, cmd))
+                    for un in uns:
+                        ninfos[un]['wall_s'] = wall
+                        log('[%s]   N %-28s %s' % (prop, un, summarize([o for o in obls if o.unit == un])))
+                return out
+
+            with concurrent.futures.ThreadPoolExecutor(max_workers=2) as ex2:
+                fk, fn_ = ex2.submit(_k_all), ex2.submit(_n_all)
+                for obls, cmd in fk.result() + fn_.result():
+                    all_obls += obls
+                    cmds.append(cmd)
             infos += [dict((k, v) for k, v in i.items() if k not in ('harnesses',)) for i in kinfos.values()]
-            for crate, uns in nat_by_crate.items():
-                obls, wall, cmd = N.run_native_crate(scr, crate, uns, ninfos, tier, prop, LOG_DIR, seed)
-                all_obls += obls
-                cmds.append(cmd)
-                for un in uns:
-                    ninfos[un]['wall_s'] = wall
-                    log('[%s]   N %-28s %s' % (prop, un, summarize([o for o in obls if o.unit == un])))
             infos += list(ninfos.values())
 
         # ---- verdicts
